@@ -7,6 +7,13 @@ from vlib.nondet import nondet_bool, nondet_int, nondet_sym
 
 from .common import index_of, model_from_pv, real_map
 
+class FNode(Node):
+    """an ordinary node with container semantics: empty and falsy"""
+
+    def __len__(self):
+        return 0
+
+
 ATTRS = ["foo", "name", "x1", "_p", "__tag__"]
 MISSING = object()
 
@@ -31,17 +38,16 @@ def final_target(targets, i):
 
 
 def build(n, targets, pv, kwargs_on=None, kwargs_val=None, attr=None):
+    """nodes are created in index order and placed through the constructors' parent= argument"""
     nodes = []
     for i in range(n):
+        par = nodes[pv[i]] if pv[i] >= 0 else None
         if targets[i] is None:
-            nodes.append(Node("n%d" % i))
+            nodes.append(FNode("n%d" % i, parent=par) if i % 2 == 0 else Node("n%d" % i, parent=par))
         elif kwargs_on == i:
-            nodes.append(SymlinkNode(nodes[targets[i]], **{attr: kwargs_val}))
+            nodes.append(SymlinkNode(nodes[targets[i]], parent=par, **{attr: kwargs_val}))
         else:
-            nodes.append(SymlinkNode(nodes[targets[i]]))
-    for i, p in enumerate(pv):
-        if p >= 0:
-            nodes[i].parent = nodes[p]
+            nodes.append(SymlinkNode(nodes[targets[i]], parent=par))
     return nodes
 
 
